@@ -608,27 +608,104 @@ pub mod crossbeam_channel {
 // parking_lot
 // ---------------------------------------------------------------------------
 
+/// Locks with exactly one scheduling point per acquisition attempt and none
+/// on release. (A switch right after a release is equivalent to a switch just
+/// before the releasing task's next scheduling point.) The lock word is a
+/// plain cell — all shuttle tasks share one OS thread and switch only at
+/// scheduling points — and a shuttle mutex/condvar pair is touched only on
+/// the contended path.
 pub mod parking_lot {
     use ::std::{
-        cell::UnsafeCell,
+        cell::{Cell, UnsafeCell},
         ops::{Deref, DerefMut},
     };
 
     use shuttle::sync::{Condvar, Mutex as SMutex};
 
-    pub use ::std::sync::TryLockError;
+    struct Raw {
+        readers: Cell<usize>,
+        writer: Cell<bool>,
+        waiters: Cell<usize>,
+        m: SMutex<()>,
+        cv: Condvar,
+    }
 
-    #[derive(Default)]
-    struct St {
-        readers: usize,
-        writer: bool,
+    // SAFETY: only touched by shuttle tasks, which are multiplexed on one OS
+    // thread and interleave only at scheduling points.
+    unsafe impl Send for Raw {}
+    unsafe impl Sync for Raw {}
+
+    impl Raw {
+        const fn new() -> Self {
+            Self {
+                readers: Cell::new(0),
+                writer: Cell::new(false),
+                waiters: Cell::new(0),
+                m: SMutex::new(()),
+                cv: Condvar::new(),
+            }
+        }
+
+        fn can(&self, write: bool) -> bool {
+            if write {
+                !self.writer.get() && self.readers.get() == 0
+            } else {
+                !self.writer.get()
+            }
+        }
+
+        fn take(&self, write: bool) {
+            if write {
+                self.writer.set(true);
+            } else {
+                self.readers.set(self.readers.get() + 1);
+            }
+        }
+
+        fn acquire(&self, write: bool) {
+            super::point("lock");
+            if self.can(write) {
+                self.take(write);
+                return;
+            }
+            self.waiters.set(self.waiters.get() + 1);
+            let mut g = self.m.lock().unwrap();
+            while !self.can(write) {
+                g = self.cv.wait(g).unwrap();
+            }
+            self.waiters.set(self.waiters.get() - 1);
+            self.take(write);
+            drop(g);
+        }
+
+        fn try_acquire(&self, write: bool) -> bool {
+            super::point("try_lock");
+            if self.can(write) {
+                self.take(write);
+                true
+            } else {
+                false
+            }
+        }
+
+        fn release(&self, write: bool) {
+            if write {
+                self.writer.set(false);
+            } else {
+                self.readers.set(self.readers.get() - 1);
+            }
+            if self.waiters.get() > 0 && super::in_shuttle() {
+                let g = self.m.lock().unwrap();
+                self.cv.notify_all();
+                drop(g);
+            }
+        }
     }
 
     // ---------------- RwLock ----------------
 
     pub struct RwLock<T: ?Sized> {
-        st: SMutex<St>,
-        cv: Condvar,
+        raw: Raw,
         data: UnsafeCell<T>,
     }
 
@@ -647,11 +724,7 @@ pub mod parking_lot {
 
     impl<T> RwLock<T> {
         pub const fn new(v: T) -> Self {
-            Self {
-                st: SMutex::new(St { readers: 0, writer: false }),
-                cv: Condvar::new(),
-                data: UnsafeCell::new(v),
-            }
+            Self { raw: Raw::new(), data: UnsafeCell::new(v) }
         }
 
         pub fn into_inner(self) -> T { self.data.into_inner() }
@@ -659,53 +732,26 @@ pub mod parking_lot {
 
     impl<T: ?Sized> RwLock<T> {
         pub fn read(&self) -> RwLockReadGuard<'_, T> {
-            let mut g = self.st.lock().unwrap();
-            while g.writer {
-                g = self.cv.wait(g).unwrap();
-            }
-            g.readers += 1;
+            self.raw.acquire(false);
             RwLockReadGuard { l: self }
         }
 
         pub fn read_recursive(&self) -> RwLockReadGuard<'_, T> { self.read() }
 
         pub fn write(&self) -> RwLockWriteGuard<'_, T> {
-            let mut g = self.st.lock().unwrap();
-            while g.writer || g.readers > 0 {
-                g = self.cv.wait(g).unwrap();
-            }
-            g.writer = true;
+            self.raw.acquire(true);
             RwLockWriteGuard { l: self }
         }
 
         pub fn try_read(&self) -> Option<RwLockReadGuard<'_, T>> {
-            let mut g = self.st.lock().unwrap();
-            if g.writer {
-                None
-            } else {
-                g.readers += 1;
-                Some(RwLockReadGuard { l: self })
-            }
+            self.raw.try_acquire(false).then(|| RwLockReadGuard { l: self })
         }
 
         pub fn try_write(&self) -> Option<RwLockWriteGuard<'_, T>> {
-            let mut g = self.st.lock().unwrap();
-            if g.writer || g.readers > 0 {
-                None
-            } else {
-                g.writer = true;
-                Some(RwLockWriteGuard { l: self })
-            }
+            self.raw.try_acquire(true).then(|| RwLockWriteGuard { l: self })
         }
 
         pub fn get_mut(&mut self) -> &mut T { self.data.get_mut() }
-
-        fn unlock_read(&self) {
-            let mut g = self.st.lock().unwrap();
-            g.readers -= 1;
-            drop(g);
-            self.cv.notify_all();
-        }
     }
 
     pub struct RwLockReadGuard<'a, T: ?Sized> {
@@ -738,16 +784,11 @@ pub mod parking_lot {
     }
 
     impl<T: ?Sized> Drop for RwLockReadGuard<'_, T> {
-        fn drop(&mut self) { self.l.unlock_read(); }
+        fn drop(&mut self) { self.l.raw.release(false); }
     }
 
     impl<T: ?Sized> Drop for RwLockWriteGuard<'_, T> {
-        fn drop(&mut self) {
-            let mut g = self.l.st.lock().unwrap();
-            g.writer = false;
-            drop(g);
-            self.l.cv.notify_all();
-        }
+        fn drop(&mut self) { self.l.raw.release(true); }
     }
 
     impl<T: ?Sized + ::std::fmt::Debug> ::std::fmt::Debug
@@ -766,11 +807,10 @@ pub mod parking_lot {
         }
     }
 
-    /// Read guard mapped to a component of the protected data. The unlock
-    /// closure is type-erased so that `U` need not relate to the lock's `T`.
+    /// Read guard mapped to a component of the protected data.
     pub struct MappedRwLockReadGuard<'a, U: ?Sized> {
         ptr: *const U,
-        unlock: Option<Box<dyn FnOnce() + Send + 'a>>,
+        raw: &'a Raw,
     }
 
     unsafe impl<U: ?Sized + Sync> Send for MappedRwLockReadGuard<'_, U> {}
@@ -783,15 +823,8 @@ pub mod parking_lot {
     }
 
     impl<U: ?Sized> Drop for MappedRwLockReadGuard<'_, U> {
-        fn drop(&mut self) {
-            if let Some(u) = self.unlock.take() {
-                u();
-            }
-        }
+        fn drop(&mut self) { self.raw.release(false); }
     }
-
-    struct SendPtr<T: ?Sized>(*const RwLock<T>);
-    unsafe impl<T: ?Sized> Send for SendPtr<T> {}
 
     impl<'a, T: ?Sized + 'a> RwLockReadGuard<'a, T> {
         pub fn map<U: ?Sized, F>(s: Self, f: F) -> MappedRwLockReadGuard<'a, U>
@@ -801,14 +834,7 @@ pub mod parking_lot {
             let l = s.l;
             ::std::mem::forget(s);
             let ptr: *const U = f(unsafe { &*l.data.get() });
-            let lp = SendPtr(l as *const RwLock<T>);
-            MappedRwLockReadGuard {
-                ptr,
-                unlock: Some(Box::new(move || {
-                    let lp = lp;
-                    unsafe { (*lp.0).unlock_read() }
-                })),
-            }
+            MappedRwLockReadGuard { ptr, raw: &l.raw }
         }
 
         pub fn try_map<U: ?Sized, F>(
@@ -823,14 +849,7 @@ pub mod parking_lot {
                 Some(u) => {
                     let ptr: *const U = u;
                     ::std::mem::forget(s);
-                    let lp = SendPtr(l as *const RwLock<T>);
-                    Ok(MappedRwLockReadGuard {
-                        ptr,
-                        unlock: Some(Box::new(move || {
-                            let lp = lp;
-                            unsafe { (*lp.0).unlock_read() }
-                        })),
-                    })
+                    Ok(MappedRwLockReadGuard { ptr, raw: &l.raw })
                 }
                 None => Err(s),
             }
@@ -840,8 +859,12 @@ pub mod parking_lot {
     // ---------------- Mutex ----------------
 
     pub struct Mutex<T: ?Sized> {
-        inner: SMutex<T>,
+        raw: Raw,
+        data: UnsafeCell<T>,
     }
+
+    unsafe impl<T: ?Sized + Send> Send for Mutex<T> {}
+    unsafe impl<T: ?Sized + Send> Sync for Mutex<T> {}
 
     impl<T: Default> Default for Mutex<T> {
         fn default() -> Self { Self::new(T::default()) }
@@ -854,38 +877,40 @@ pub mod parking_lot {
     }
 
     impl<T> Mutex<T> {
-        pub const fn new(v: T) -> Self { Self { inner: SMutex::new(v) } }
+        pub const fn new(v: T) -> Self {
+            Self { raw: Raw::new(), data: UnsafeCell::new(v) }
+        }
     }
 
-    pub struct MutexGuard<'a, T: ?Sized>(shuttle::sync::MutexGuard<'a, T>);
+    pub struct MutexGuard<'a, T: ?Sized> {
+        l: &'a Mutex<T>,
+    }
 
-    // parking_lot's `send_guard` feature makes guards `Send`; all shuttle
-    // tasks share one OS thread, so moving a guard between tasks is fine.
     unsafe impl<T: ?Sized + Send> Send for MutexGuard<'_, T> {}
+    unsafe impl<T: ?Sized + Sync> Sync for MutexGuard<'_, T> {}
 
     impl<T: ?Sized> Deref for MutexGuard<'_, T> {
         type Target = T;
 
-        fn deref(&self) -> &T { &self.0 }
+        fn deref(&self) -> &T { unsafe { &*self.l.data.get() } }
     }
 
     impl<T: ?Sized> DerefMut for MutexGuard<'_, T> {
-        fn deref_mut(&mut self) -> &mut T { &mut self.0 }
+        fn deref_mut(&mut self) -> &mut T { unsafe { &mut *self.l.data.get() } }
+    }
+
+    impl<T: ?Sized> Drop for MutexGuard<'_, T> {
+        fn drop(&mut self) { self.l.raw.release(true); }
     }
 
     impl<T: ?Sized> Mutex<T> {
         pub fn lock(&self) -> MutexGuard<'_, T> {
-            MutexGuard(self.inner.lock().unwrap())
+            self.raw.acquire(true);
+            MutexGuard { l: self }
         }
 
         pub fn try_lock(&self) -> Option<MutexGuard<'_, T>> {
-            match self.inner.try_lock() {
-                Ok(g) => Some(MutexGuard(g)),
-                Err(TryLockError::WouldBlock) => None,
-                Err(TryLockError::Poisoned(p)) => {
-                    Some(MutexGuard(p.into_inner()))
-                }
-            }
+            self.raw.try_acquire(true).then(|| MutexGuard { l: self })
         }
     }
 }
